@@ -1732,9 +1732,12 @@ class StateEngine(object):
 
         # ----------------------------------------------------------------------
 
-        def handle_terminal_state(state_type, event, id=None):
+        def handle_terminal_state(state_type, event, id=None, terminal_state=None):
             """
             This function handles the boilerplate needed for terminal states.
+            terminal_state is the state that is ending, if that is not the
+            state currently being handled (a Map or Parallel state ending
+            when the last of its Branches does).
             """
             #print("---- handle_terminal_state ----")
             execution_arn = context["Execution"]["Id"]
@@ -1742,6 +1745,27 @@ class StateEngine(object):
             data = event["data"]
             error = isinstance(data, dict) and data.get("Error")
             task_terminated = error == "Task.Terminated"
+
+            """
+            The output of a terminal state is subject to the same 262144
+            character quota that change_state() checks for every other state.
+            https://docs.aws.amazon.com/step-functions/latest/dg/limits.html
+            """
+            if not error and len(json.dumps(data)) > MAX_DATA_LENGTH:
+                error_message = ("{} an error occurred while executing the state "
+                                 "\"{}\": A result with a size exceeding the maximum "
+                                 "number of characters service limit "
+                                 "was returned.").format(
+                                    execution_arn, context["State"]["Name"]
+                                 )
+                self.logger.error(error_message)
+                handle_error(
+                    terminal_state or state,
+                    "States.DataLimitExceeded", error_message
+                )
+                if id != None:
+                    self.event_dispatcher.acknowledge(id)
+                return
 
             if "Branch" in context["State"]:
                 # Handle terminal states for Map Iterators and Parallel Branches.
@@ -3447,7 +3471,7 @@ class StateEngine(object):
             the list of held event IDs.
             """
             if state.get("End"):
-                handle_terminal_state(state_type, event)
+                handle_terminal_state(state_type, event, terminal_state=state)
 
             # Acknowledge the events for each branch's terminal state
             #print("Result - event_ids:")
